@@ -38,12 +38,14 @@ def _lib():
 # Attribute kinds
 
 SCALAR_KINDS = ["int", "str", "float", "optint", "union", "lit", "bounded", "validated"]
-EXTRA_KINDS = ["any"]  # only used by profiles that ask for it (module-bearing payloads)
+# only used by profiles that ask for them: module-bearing payloads; a list whose items are Optional[spec class]
+# (the element type is then not "a spec class" for the library's purposes)
+EXTRA_KINDS = ["any", "list_optleaf"]
 PLAIN_COLL_KINDS = ["list_int", "dict_int", "set_int"]
 SPEC_KINDS = ["leaf"]
 SPEC_COLL_KINDS = ["list_leaf", "dict_leaf", "list_kitem", "dict_kitem", "klist", "kset"]
 ALL_KINDS = SCALAR_KINDS + PLAIN_COLL_KINDS + SPEC_KINDS + SPEC_COLL_KINDS
-COLL_KINDS = PLAIN_COLL_KINDS + SPEC_COLL_KINDS
+COLL_KINDS = PLAIN_COLL_KINDS + SPEC_COLL_KINDS + ["list_optleaf"]
 
 KIND_NAMES = {
     "int": ["count", "size"],
@@ -65,16 +67,17 @@ KIND_NAMES = {
     "klist": ["entries"],
     "kset": ["members"],
     "any": ["payload", "extra"],
+    "list_optleaf": ["slots"],
 }
 
 FAMILY = {
-    "list_int": "seq", "list_leaf": "seq", "list_kitem": "seq", "klist": "seq",
+    "list_int": "seq", "list_leaf": "seq", "list_kitem": "seq", "klist": "seq", "list_optleaf": "seq",
     "dict_int": "map", "dict_leaf": "map", "dict_kitem": "map",
     "set_int": "set", "kset": "set",
 }
 ITEM_KIND = {
     "list_int": "int", "dict_int": "int", "set_int": "int",
-    "list_leaf": "leaf", "dict_leaf": "leaf",
+    "list_leaf": "leaf", "dict_leaf": "leaf", "list_optleaf": "leaf",
     "list_kitem": "kitem", "dict_kitem": "kitem", "klist": "kitem", "kset": "kitem",
 }
 
@@ -108,6 +111,7 @@ FUNCS = {
     "none": lambda x: None,
     "tostr": lambda x: str(x),
     "tolist": lambda x: [x],
+    "newlist": lambda x: [0],  # a brand-new object sharing nothing with its input
     "missing": lambda x: _missing(),
     "rev": lambda x: list(reversed(x)),
     "app9": lambda x: list(x) + [9],
@@ -128,7 +132,7 @@ FUNCS = {
 }
 
 GOOD_FNS = {
-    "any": ["ident", "tolist"],
+    "any": ["ident", "tolist", "newlist"],
     "int": ["inc", "neg", "zero", "ident", "dbl"],
     "str": ["bang", "a", "ident"],
     "float": ["half", "inc", "ident"],
@@ -356,6 +360,8 @@ def gen_class_spec(src, profile=None):
         sub["options"] = {"bootstrap": not src.chance(p["p_lazy"])}
         if p["allow_new_shapes"] and src.chance(0.4):
             sub["mixin_first"] = True  # class Sub(Mixin, Host)
+        if p["allow_new_shapes"] and src.chance(0.35):
+            sub["own_new"] = True  # the subclass has a cooperative __new__ of its own (calls super().__new__(cls))
         if skind == "spec":
             # keep per-attribute do_not_copy unambiguous across the spec subclass
             dnc = [a["name"] for a in attrs if a.get("flags", {}).get("do_not_copy")]
@@ -458,6 +464,8 @@ def good_value(src, kind, small=False):
     if kind in ("list_leaf",):
         return ["tuple" if (not small and src.chance(0.12)) else "list",
                 [good_value(src, "leaf") for _ in range(src.randint(0, 2 if small else 3))]]
+    if kind == "list_optleaf":
+        return ["list", [None if src.chance(0.2) else good_value(src, "leaf") for _ in range(src.randint(0, 2 if small else 3))]]
     if kind == "dict_leaf":
         keys = src.sample(["a", "b", "c", ""], src.randint(0, 2 if small else 3))
         return ["dict", [[k, good_value(src, "leaf")] for k in keys]]
@@ -483,15 +491,15 @@ def good_value(src, kind, small=False):
 def bad_values(kind):
     """Non-conforming valrefs for a whole attribute value of `kind` (each wrong somewhere)."""
     if kind == "int":
-        return ["s", None, ["float", "1.5"], ["list", [1]]]
+        return ["s", None, ["float", "1.5"], ["list", [1]], ["float", "1.0"], ["float", "0.0"]]
     if kind == "str":
         return [0, None, ["list", ["a"]]]
     if kind == "float":
         return ["s", None, ["list", []]]
     if kind == "optint":
-        return ["s", ["float", "0.5"], ["list", []]]
+        return ["s", ["float", "0.5"], ["list", []], ["float", "5.0"], ["float", "0.0"]]
     if kind == "union":
-        return [None, ["float", "0.5"], ["list", [1]]]
+        return [None, ["float", "0.5"], ["list", [1]], ["float", "4.0"], ["float", "0.0"]]
     if kind == "lit":
         return ["c", 0, None, ""]
     # (floats equal to conforming ints: right value, wrong type -- whatever an earlier verdict on the int was)
@@ -512,6 +520,8 @@ def bad_values(kind):
     if kind == "kitem":
         return [0, None, ["leaf", {}], ["list", []]]
     if kind == "list_leaf":
+        return [["list", [["leaf", {}], 3]], 5, ["list", [["kitem", {"k": "a"}]]]]
+    if kind == "list_optleaf":
         return [["list", [["leaf", {}], 3]], 5, ["list", [["kitem", {"k": "a"}]]]]
     if kind == "dict_leaf":
         return [["dict", [["a", 3]]], ["dict", [[1, ["leaf", {}]]]], 5]
@@ -598,6 +608,8 @@ def annotation_for(kind, classes, faults):
         return Leaf
     if kind == "list_leaf":
         return List[Leaf]
+    if kind == "list_optleaf":
+        return List[Optional[Leaf]]
     if kind == "dict_leaf":
         return Dict[str, Leaf]
     if kind == "list_kitem":
@@ -933,6 +945,11 @@ def materialise(spec, faults, name_suffix=""):
                         sing = f"{a['name']}_item"
                     sinfo[a["name"]]["item_name"] = sing
             sns["__annotations__"] = sann
+        if sub.get("own_new"):
+            def sub_new(cls, *args, **kwargs):
+                new_log.append("sub:" + _nm(cls))
+                return super(classes["sub"], cls).__new__(cls)
+            sns["__new__"] = sub_new
         if sub.get("mixin_first"):
             class SubMixin:
                 def describe_sub(self):
